@@ -94,8 +94,15 @@ func (evt *catchEvent) run(ctx context.Context, sender tracing.ISenderHandle) {
 }
 
 func (evt *catchEvent) ConsumeEvent(ev event.IEvent) (result event.ConsumptionResult, err error) {
-	evt.mch <- processEventMessage{event: ev}
 	result = event.Consumed
+	// Only a listening catch event reacts to an event (run drops it
+	// otherwise). Do not queue it for a node that is not listening: a node
+	// that no token has reached yet has no run loop draining its inbox, and
+	// once the few inbox slots are full the delivery would block forever.
+	if !evt.activated.Load() {
+		return
+	}
+	evt.mch <- processEventMessage{event: ev}
 	return
 }
 
